@@ -280,6 +280,7 @@ DfFull == {D("missing", <<>>), D("None", <<>>), D("scalar", <<12>>), D("tuple", 
            D("tuple", <<44, 52, 60>>), D("tuple", <<68, 76, 84, 92>>)}
 DfSmall == {D("missing", <<>>), D("scalar", <<12>>), D("tuple", <<28, 36>>), D("tuple", <<44, 52, 60>>)}
 DfTiny == {D("scalar", <<12>>), D("tuple", <<28, 36>>)}
+DfThree == {D("missing", <<>>), D("scalar", <<12>>), D("tuple", <<28, 36>>)}
 DfLong == DfFull \cup {D("tuple", [i \in 1..n |-> 100 + i]) : n \in {7, 17, 33}}
 DfImpl == DfSmall \cup {D("tuple", [i \in 1..17 |-> 100 + i])}
 \* values that matter: zeros of every literal kind, booleans, negatives, the spec default itself (440) and
